@@ -65,6 +65,7 @@ func (c *FnCtx) finalize() {
 		return
 	}
 	c.finalized = true
+	defer c.addLemmas()
 	env := &specEnv{c: c, vars: map[string]sv{}, heap: c.entry, pkg: c.pkgTypes()}
 	// evaluate every axiom whose spec functions are (transitively) used
 	done := map[*Axiom]bool{}
@@ -151,6 +152,37 @@ func (c *FnCtx) finalize() {
 }
 
 var qvarRe = regexp.MustCompile(`!q[0-9]+`)
+
+// addLemmas: proved lemmas whose spec functions are used become quantified facts.
+func (c *FnCtx) addLemmas() {
+	for _, lem := range c.eng.specs.Lemmas {
+		if "lemma."+lem.Name == c.key {
+			continue // a lemma is not available in its own proof (only its induction hypothesis)
+		}
+		names := map[string]bool{}
+		for _, cl := range lem.Clauses {
+			c.eng.specCallClosure(cl.E, names, 0)
+		}
+		rel := false
+		for n := range names {
+			if c.usedSpecFuncs[n] {
+				rel = true
+			}
+		}
+		if !rel {
+			continue
+		}
+		c.inAxiom = true
+		t, syms, err := c.lemmaAxiom(lem)
+		c.inAxiom = false
+		if err != nil {
+			c.notes = append(c.notes, fmt.Sprintf("lemma %s: %v", lem.Name, err))
+			continue
+		}
+		c.axioms = append(c.axioms, axiomInst{name: "lemma " + lem.Name, syms: syms, text: t})
+		c.usedLemmas = append(c.usedLemmas, lem.Name)
+	}
+}
 
 func (e *Engine) axiomPkg(ax *Axiom, c *FnCtx) *typesPackage {
 	if strings.Contains(ax.File, "/cli/") {
